@@ -884,6 +884,25 @@ fn stdio_part(out: &mut Outcome) -> u64 {
 
 fn main_check(ctx: &Ctx) -> Outcome {
     let mut out = Outcome::default();
+    // the same oracles against a non-default feature set of the crate (every sequence of <= 4 fragments through the seven constructors, in a build of anstream without `auto` / `wincon`)
+    match vchecks::parsecfg::build_and_run_feat("stream") {
+        Ok(v) => {
+            for f in v["findings"].as_array().cloned().unwrap_or_default().into_iter().take(12) {
+                out.findings.push(Finding {
+                    system: "anstream without its default features".into(),
+                    clause: "feature-configuration".into(),
+                    case: vec![f["case"].as_str().unwrap_or("").to_string()],
+                    message: f["message"].as_str().unwrap_or("").chars().take(600).collect(),
+                    replay: serde_json::json!({"kind":"feature-configuration","feature":"stream"}),
+                });
+            }
+            out.push_part(serde_json::json!({"configuration":"anstream without its default features","cases":v["cases"]}));
+        }
+        Err(m) => {
+            println!("MACHINERY ERROR: {m}");
+            std::process::exit(2);
+        }
+    }
     let quick = ctx.quick();
     clear_env();
     // panics inside the explored calls are caught and reported as findings; keep stderr quiet
@@ -1066,6 +1085,17 @@ fn main_check(ctx: &Ctx) -> Outcome {
 }
 
 fn replay(v: &serde_json::Value) -> Result<(), String> {
+    if v["kind"] == "feature-configuration" || v["kind"] == "env" {
+        // re-run the worker / the environment part and report its first finding
+        if v["kind"] == "env" {
+            return Err("environment-dependence findings are replayed by re-running the check".into());
+        }
+        let r = vchecks::parsecfg::build_and_run_feat(v["feature"].as_str().unwrap_or(""))?;
+        return match r["findings"].as_array().and_then(|a| a.first()) {
+            Some(f) => Err(format!("{}: {}", f["case"].as_str().unwrap_or(""), f["message"].as_str().unwrap_or(""))),
+            None => Ok(()),
+        };
+    }
     clear_env();
     std::panic::set_hook(Box::new(|_| {}));
     fn run<W: Sink>(ctor: Ctor, labels: &[String]) -> Result<(), String> {
